@@ -97,6 +97,8 @@ C05_URIs             == mon.f.c05
 C18_Retention        == mon.f.c18
 C19_RegularParts     == mon.f.c19
 C16_Multivariant     == mon.f.c16
+\* C06, delta updates: the response to _HLS_skip=YES / v2 is the full playlist of the same instant minus its first N segments
+C06_DeltaIsSuffix    == (l > 1 /\ l - 1 <= Len(Trace) /\ Trace[l - 1].ev = "write" /\ "delta" \in DOMAIN Trace[l - 1]) => Trace[l - 1].delta = 1
 C07_AfterClose       == (l > 1 /\ l - 1 <= Len(Trace) /\ Trace[l - 1].ev = "closed") =>
                            (Trace[l - 1].files \in {-1, 0} /\ Trace[l - 1].plst # 200)
 =============================================================================
